@@ -5,6 +5,8 @@ import os
 import threading
 import vlib
 
+# bulk replays: no symbolizer process per sanitizer report (failing behaviours are re-run with it)
+FAST_ENV = {"ASAN_OPTIONS": vlib.ASAN_ENV + ":symbolize=0"}
 PID = "C14"
 MANIFEST = dict(
         spec="NodeTree.tla (+MC_NodeTree, Gen_NodeTree, Trace_NodeTree)",
@@ -32,6 +34,7 @@ SEAM = ("malloc=vf_malloc", "free=vf_free", "calloc=vf_calloc", "realloc=vf_real
 
 def build():
     srcs = sorted(os.path.relpath(p, vlib.REPO) for p in glob.glob(os.path.join(vlib.REPO, "mptcore/node/*.c")))
+    srcs.append("mptcore/misc/identifier.c")      # name buffers of long identifiers go through the seam as well
     if not srcs:
         raise vlib.MachineryError("no node sources under %s" % vlib.REPO)
     return vlib.build_driver("nodetree", ["nodetree.c"], defines=SEAM, repo_sources=srcs)
@@ -49,6 +52,9 @@ def match(exp, obs, step, rec, prev):
             return "%s: missing" % k
         if obs[k] != exp[k]:
             return "%s: expected %s, observed %s" % (k, json.dumps(exp[k]), json.dumps(obs[k]))
+    for k in ("fired", "grow"):         # failed clone: the armed failure was met, nothing stays allocated
+        if k in exp and obs.get(k) != exp[k]:
+            return "%s: expected %s, observed %s" % (k, exp[k], obs.get(k))
     d = rec.get("dbg") or {}
     if d.get("badfree"):
         return "freed: a block was released that is not allocated (badfree=%d)" % d["badfree"]
@@ -60,6 +66,8 @@ def match(exp, obs, step, rec, prev):
 def arg_class(st):
     """Discriminating condition of a failing step (computed from the step only)."""
     a, arg = st["a"], st.get("arg") or {}
+    if a == "clonefail":
+        return "%s,%s" % (arg.get("kind"), "failmeta" if arg.get("failmeta") else "failat")
     if "pos" in arg:
         p = arg["pos"]
         return "pos<0" if p < 0 else "pos=0" if p == 0 else "pos=1" if p == 1 else "pos>1"
@@ -126,7 +134,7 @@ def binding_a(ck, exe, gencfg, tag, nt, samples):
     failed = {}
     for ch in chunks(path, 25000):
         behs = vlib.parse_behaviours("".join(ch))
-        recs, _ = vlib.run_driver(exe, quiet_script(behs))
+        recs, _ = vlib.run_driver(exe, quiet_script(behs), env=FAST_ENV)
         mms = vlib.compare(behs, recs, match)
         for mm in mms:
             failed[callkey(behs[mm["b"]])] = (behs[mm["b"]], mm)
@@ -172,7 +180,7 @@ NB = 24                      # handle table of the recorded histories (MaxNodes 
 NAMELENS = [0, 1, 1, 2, 3, 7, 8, 20, 27, 28, 29, 60, 100, 200, 251, 252, 253, 255, 256, 300]
 OPS = [("new", 20), ("ginsert", 10), ("ninsert", 10), ("gadd", 6), ("nadd", 7), ("after", 4), ("before", 4),
        ("unlink", 6), ("destroy", 4), ("clear", 2), ("relink", 3), ("clonenode", 2), ("clonetree", 4),
-       ("clonelist", 4), ("move", 7), ("swap", 3), ("pos", 2), ("locate", 3), ("find", 3), ("next", 2),
+       ("clonelist", 4), ("clonefail", 4), ("move", 7), ("swap", 3), ("pos", 2), ("locate", 3), ("find", 3), ("next", 2),
        ("traverse", 3)]
 
 
@@ -196,6 +204,8 @@ def extend(rng, hist, obs, pool, k):
         op = rng.choices(names, weights)[0]
         if len(live) < 3 and rng.random() < 0.6:
             op = "new"
+        elif len(free) < 4 and rng.random() < 0.5:     # table nearly full: make room
+            op = rng.choice(["destroy", "destroy", "clear", "unlink"])
 
         def any_handle():
             return rng.randrange(0, NB + 2) if rng.random() < 0.06 or not live else rng.choice(live)
@@ -213,6 +223,10 @@ def extend(rng, hist, obs, pool, k):
             arg = {"first": any_handle(), "pos": pos, "n": unlinked()}
         elif op in ("after", "before"):
             arg = {"p": rng.choice([0, any_handle(), any_handle(), any_handle()]), "n": unlinked()}
+        elif op == "clonefail":
+            fm = rng.random() < 0.3
+            arg = {"kind": rng.choice(["clonenode", "clonetree", "clonetree", "clonelist", "clonelist"]), "n": any_handle(),
+                   "failat": 0 if fm else rng.choice([1, 1, 2, 2, 3, 4, 6]), "failmeta": rng.choice([1, 1, 2, 3]) if fm else 0}
         elif op == "move":
             arg = {"s": any_handle(), "d": any_handle()}
         elif op == "swap":
@@ -264,16 +278,16 @@ def nontrivial_b(recs):
                 deep = True
         if o.get("freed"):
             rel = True
-        if r.get("a") in ("clonetree", "clonelist", "move") and not o.get("skip"):
+        if r.get("a") in ("clonetree", "clonelist", "clonefail", "move") and not o.get("skip"):
             big = True
     return deep and rel and big
 
 
-def trace_signature(ev):
+def trace_signature(ev, call=None):
     if ev is None:
         return "trace:short"
     if ev["a"] in ("Crash", "Hang", "Garbled", "Missing"):
-        return "trace:%s" % ev["a"].lower()
+        return "trace:%s:%s:%s" % (call["a"] if call else "?", ev["a"].lower(), arg_class(call) if call else "-")
     return "trace:%s:%s:%s" % (ev["a"], "skipped" if (ev.get("obs") or {}).get("skip") else "rejected", arg_class(ev))
 
 
@@ -287,7 +301,7 @@ def binding_b(ck, exe, n, steps, nt):
         if not ok2 and matched2 == matched:
             ev = events[matched] if matched < len(events) else None
             beh = hists[ev["b"]][:ev["i"] + 1] if ev else None
-            ck.violation(trace_signature(ev), {"binding": "B(trace validation)", "matched_prefix": matched,
+            ck.violation(trace_signature(ev, beh[-1] if beh else None), {"binding": "B(trace validation)", "matched_prefix": matched,
                                                "rejected_event": ev, "previous_event": events[matched - 1] if matched else None,
                                                "behaviour": beh, "tlc_tail": tres.out[-1500:]})
         else:
